@@ -141,7 +141,7 @@ def bar_len(num, den, ppqn=24):
 
 
 def gen_piece(rng, n_tracks=None, n_bars=None, steps=None, values=None, pitch_range=(21, 108), max_notes_per_bar=3,
-              sig_change_prob=0.3, key_changes=False, unequal=False, tail_ok=False):
+              sig_change_prob=0.3, key_changes=False, unequal=False, tail_ok=False, within_bar=False):
     """A multi-track piece on a bar grid.  Returns dict with
        tracks: list of relative message lists (one single-channel sequence per track, channel 0),
        notes:  per track list of (pitch, on, dur, vel),
@@ -183,6 +183,8 @@ def gen_piece(rng, n_tracks=None, n_bars=None, steps=None, values=None, pitch_ra
                 p = rng.randint(pitch_range[0], pitch_range[1])
                 vel = rng.choice([1, 30, 64, 100, 127, rng.randint(1, 127)])
                 if not tail_ok and on + dur > total:
+                    continue
+                if within_bar and on + dur > start + length:
                     continue
                 if any(x[0] == p and not (on + dur <= x[1] or x[1] + x[2] <= on) for x in notes):
                     continue
